@@ -139,6 +139,8 @@ type node struct {
 	gate     func(hs []util.Uint256) // called (in the service's goroutine) before the node's RequestTx is executed
 	onOwn    func(n *node, e *payload.Extensible)
 	h0       int
+	qmu      sync.Mutex
+	queuedH  map[int]bool
 	gateMu   sync.Mutex
 	closed   bool
 	accepted atomic.Int64
@@ -170,8 +172,17 @@ func (s svcTap) Shutdown() { s.n.svc.Shutdown() }
 type qTap struct{ n *node }
 
 func (q qTap) Put(b *block.Block) error {
+	q.n.qmu.Lock()
+	q.n.queuedH[int(b.Index)] = true
+	q.n.qmu.Unlock()
 	q.n.emit(map[string]any{"event": "queued", "i": int(b.Index), "b": sid(b.Hash()), "ntx": len(b.Transactions)})
 	return q.n.srv.GetBlockQueue().Put(b)
+}
+
+func (n *node) queuedAt(h int) bool {
+	n.qmu.Lock()
+	defer n.qmu.Unlock()
+	return n.queuedH[h]
 }
 
 func (n *node) emit(ev map[string]any) {
@@ -187,7 +198,7 @@ func newNode(w *world, o nodeOpts, log *evlog, clk *clock, dir string) (n *node,
 		}
 	}()
 	installHooks()
-	n = &node{w: w, id: o.id, log: log, done: make(chan struct{}), onOwn: o.onOwn, h0: o.h0}
+	n = &node{w: w, id: o.id, log: log, done: make(chan struct{}), onOwn: o.onOwn, h0: o.h0, queuedH: map[int]bool{}}
 	n.bc, err = w.net.NewChain(nil, w.hook)
 	if err != nil {
 		return nil, err
